@@ -389,6 +389,8 @@ def slow_path(prog):
     m.idx0 = entry_value(prog, body, lm, m.idx_pk)
     m.acc_hdr = s.val_entry(m.acc, lm.header)
     m.acc_entry = s.val(m.acc, 0, 0)
+    # mutations of the output vector outside the reassembly loop (there should be none)
+    m.stray_pushes = [(b, n) for b, n in mutators_of(prog, body, m.acc) if b not in lm.blocks]
     # the line under construction: every place mutated in the loop other than acc and the iterator
     roots = set()
     for b, rs in s.mut_calls().items():
